@@ -18,19 +18,19 @@ BoolText(b) == IF b THEN "true" ELSE "false"
 Count(s, x) == Cardinality({ i \in 1 .. Len(s) : s[i] = x })
 Range(s) == { s[i] : i \in 1 .. Len(s) }
 
-Visible(w, d) == { n \in NodeIds(w) : d = 0 \/ LevelBelow(w, 0, n) <= d }
-MemberRows(w, d) == UNION { { << "[./" \o RelPath(w, z) \o "] " \o w.nodes[z].zip[k].name, ToString(ContentLen(w.nodes[z].zip[k].content)),
+Visible(w, d, mn) == { n \in NodeIds(w) : (d = 0 \/ LevelBelow(w, 0, n) <= d) /\ (mn = 0 \/ LevelBelow(w, 0, n) >= mn) }
+MemberRows(w, d, mn) == UNION { { << "[./" \o RelPath(w, z) \o "] " \o w.nodes[z].zip[k].name, ToString(ContentLen(w.nodes[z].zip[k].content)),
                               BoolText(w.nodes[z].zip[k].isdir), Str(ModeChars(w.nodes[z].zip[k].mode)), Stamp(w.nodes[z].zip[k].dos),
                               BoolText(Bit(w.nodes[z].zip[k].mode, 2048)), BoolText(Bit(w.nodes[z].zip[k].mode, 1024)) >>
                             : k \in 1 .. Len(w.nodes[z].zip) }
-                          : z \in { n \in Visible(w, d) : w.nodes[n].iszip } }
+                          : z \in { n \in Visible(w, d, mn) : w.nodes[n].iszip } }
 
 Why(r) ==
   LET w == r.world  a == r.obs.arc  p == r.obs.plain IN
   IF a.timed_out \/ p.timed_out THEN "timeout" ELSE IF a.panic THEN "crash"
   ELSE IF r.kind = "members" THEN
-     LET want == MemberRows(w, r.variant.depth)
-         vis == Visible(w, r.variant.depth)
+     LET want == MemberRows(w, r.variant.depth, r.variant.mind)
+         vis == Visible(w, r.variant.depth, r.variant.mind)
          extra == { a.rows[i] : i \in { j \in 1 .. Len(a.rows) : Count(p.rows, a.rows[j]) = 0 } } IN
      IF a.status # 0 THEN "status-" \o ToString(a.status)
      ELSE IF { p.rows[i][1] : i \in 1 .. Len(p.rows) } # { "./" \o RelPath(w, n) : n \in vis } \/ Len(p.rows) # Cardinality(vis) THEN "plain-run-wrong"
